@@ -869,6 +869,9 @@ func (r *runner) checkFinal(s *scen) {
 	if len(s.honest) < s.ks.k {
 		return
 	}
+	if s.life != nil && s.life.parkedLost && len(s.life.otherKeys) >= 50 {
+		return // the recorded LRU finding (reported by runLife with its own key)
+	}
 	o := s.observe(s.hash)
 	if s.ending != "done" || !o.generated || !o.genG || !o.genR {
 		// narrow classifier for the recorded finding: round1.Start was left by a panic (stored messages
